@@ -394,6 +394,11 @@ func makeFlag(m parse.RedirMode) int {
 
 type InvalidFD struct{ FD int }
 
+// The largest port number that can be used in a redirection. Ports are kept in
+// a slice indexed by port number, so the number has to be bounded; this is the
+// largest file descriptor number Linux can be configured to allow.
+const maxFD = 1<<20 - 1
+
 func (err InvalidFD) Error() string { return fmt.Sprintf("invalid fd: %d", err.FD) }
 
 func (op *redirOp) exec(fm *Frame, fops *[]formOwnedPort) Exception {
@@ -525,6 +530,9 @@ func evalForFd(fm *Frame, op valuesOp, closeOK bool, what string) (int, error) {
 	}
 	var fd int
 	if vals.ScanToGo(value, &fd) == nil {
+		if fd < 0 || fd > maxFD {
+			return -1, fm.errorp(op, InvalidFD{FD: fd})
+		}
 		return fd, nil
 	} else if value == "-" && closeOK {
 		return -1, nil
